@@ -9,6 +9,7 @@ _lock = threading.Lock()
 FAULT_PLAN = {}        # call index (0-based over exists/create/write) -> exception class name
 FAULT_OPS = {}         # persistent conditions: op ('exists' | 'create' | 'write') -> exception class name (e.g. disk full: every create raises)
 FAULT_METRICS = {}     # damaged files: metric -> exception class name raised by every write to that metric
+ON_CALL = [None]       # callable(entry) invoked on every backend call, outside the log's lock
 CLOCK = [None]         # callable returning virtual time, set by harness
 TICK = [None]          # callable returning the harness' logical clock
 EXC = {'IOError': IOError, 'OSError': OSError, 'ValueError': ValueError,
@@ -35,6 +36,8 @@ def _log(op, metric, args):
     ent = dict(seq=seq, vt=(CLOCK[0]() if CLOCK[0] else None), tick=(TICK[0]() if TICK[0] else None), thread=threading.current_thread().name,
                op=op, metric=metric, args=args, outcome=None)
     CALL_LOG.append(ent)
+  if ON_CALL[0] is not None:
+    ON_CALL[0](ent)        # e.g. a sender that keeps delivering while the backend is busy
   return ent
 
 
